@@ -73,6 +73,9 @@ func (r *Report) collect(frs []*FuncResult, db *SpecDB) {
 		for k, n := range fr.Enc.assumedUsed {
 			r.trusted[k] += n
 		}
+		for _, tc := range fr.Enc.trustedClauses {
+			r.trusted["trusted ensures of "+tc]++
+		}
 		for k, n := range fr.Enc.inlined {
 			r.inlined[k] += n
 		}
